@@ -8,7 +8,8 @@ Import ListNotations.
 From Verif Require Import Lib.Corr Gen.C31.
 Open Scope Z_scope.
 
-Record blk := mk_blk { bid : Z; grp : Z; srcs : list Z }.
+(* [lvl] = Compaction.Level *)
+Record blk := mk_blk { bid : Z; grp : Z; srcs : list Z; lvl : Z }.
 
 Definition mem (x : Z) (l : list Z) : bool := existsb (Z.eqb x) l.
 
@@ -16,14 +17,16 @@ Definition mem (x : Z) (l : list Z) : bool := existsb (Z.eqb x) l.
 Definition contains (s1 s2 : list Z) : bool := forallb (fun a => mem a s1) s2.
 
 (* the sort.Slice comparator of filterGroup (more sources first, then smaller
-   ULID); its three decisions are regenerated from the source into Gen/C31.v *)
+   ULID); its decisions (incl. the compaction-level tie-break, when present) are regenerated from the source into Gen/C31.v *)
 Definition ulid_cmp (a b : Z) : Z :=
   match a ?= b with Lt => -1 | Eq => 0 | Gt => 1 end.
 
 Definition before (a b : blk) : bool :=
   let ilen := Z.of_nat (length (srcs a)) in
   let jlen := Z.of_nat (length (srcs b)) in
-  if filterGroup_tie ilen jlen then filterGroup_ulid_first (ulid_cmp (bid a) (bid b))
+  if filterGroup_tie ilen jlen then
+    (if filterGroup_level_differs (lvl a) (lvl b) then filterGroup_level_first (lvl a) (lvl b)
+     else filterGroup_ulid_first (ulid_cmp (bid a) (bid b)))
   else filterGroup_len_first ilen jlen.
 
 Fixpoint insert (x : blk) (l : list blk) : list blk :=
